@@ -217,6 +217,18 @@ def run(prog, check):
                          'counterparty discovery ranges over %s: sectors of other currency zones are taxed / counted / supplied' % ck,
                          'two economies with different currencies in one model')
             for r in roles_in(e):
+                if r.kind == 'loop' and r.args and isinstance(r.args[0], str) and r.args[0] not in {ck_ for ck_, _ in e.loops}:
+                    # an element picked by a search loop elsewhere (a helper that returns the sector found)
+                    key = '%s::%s.G::discovery(%s)' % (ci.module.rel, ci.name, r.args[0])
+                    if key not in seen2:
+                        seen2.add(key)
+                        txt = r.args[0]
+                        ok = txt in ('zone_sectors(Self)', 'country_sectors(Self)') or txt.split('(')[0] in ('field', 'param', 'dict_items', 'elem', 'folded', 'exclusions')
+                        n3 += 1
+                        check.ob('C18.R3', key, ok, e.where,
+                                 'the sector found comes from the own country / zone' if ok else
+                                 'a counterparty is searched for in %s: a sector of another currency zone can be picked' % txt,
+                                 'two economies with different currencies in one model')
                 if r.kind == 'lookup':
                     key = '%s::%s.G::lookup(%s)' % (ci.module.rel, ci.name, r.args[0])
                     if key in seen2:
